@@ -220,6 +220,20 @@ def case_SLOW_follows_the_environment():
     return None
 
 
+def case_KNOWN_subclass_adds_a_constructor_below_an_invariant_class_without_init():
+    @icontract.invariant(lambda self: True)
+    class A:
+        pass
+
+    class B(A):
+        def __init__(self, v):
+            self.v = v
+    try:
+        return None if B(1).v == 1 else "wrong instance"
+    except TypeError as e:
+        return "a subclass that adds __init__(self, v) can not be instantiated any more: %s" % e
+
+
 CASES = {n[5:]: f for n, f in sorted(globals().items()) if n.startswith("case_")}
 
 
@@ -231,9 +245,13 @@ def main(argv):
     ap.add_argument("--hints", default="")
     ap.add_argument("--out")
     ap.add_argument("--all", action="store_true")
+    ap.add_argument("--exclude", default="")
+    ap.add_argument("--only", default="")
     a = ap.parse_args(argv)
     res = {"icontract_file": icontract.__file__, "found": False}
-    names = list(CASES)
+    names = [n for n in CASES if n not in a.exclude.split("|")]
+    if a.only:
+        names = [a.only]
     if a.scenario:
         scn = json.load(open(a.scenario))
         names = [scn.get("program", scn)["case"]]
